@@ -464,6 +464,38 @@ func unknownIdent(msg string) string {
 
 // hasSourceName: does the function (or an enclosing function, for closures) have a parameter, captured variable,
 // named result or local variable with this source name?
+// ownSourceName: fn itself (not an enclosing function) has a parameter, captured variable or local of that name
+func ownSourceName(fn *ssa.Function, name string) bool {
+	for _, p := range fn.Params {
+		if p.Name() == name {
+			return true
+		}
+	}
+	for _, v := range fn.FreeVars {
+		if v.Name() == name {
+			return true
+		}
+	}
+	for _, b := range fn.Blocks {
+		for _, ins := range b.Instrs {
+			switch x := ins.(type) {
+			case *ssa.DebugRef:
+				if o := x.Object(); o != nil && o.Name() == name {
+					if v, ok := o.(*types.Var); ok && v.IsField() {
+						continue
+					}
+					return true
+				}
+			case *ssa.Alloc:
+				if x.Comment == name {
+					return true
+				}
+			}
+		}
+	}
+	return false
+}
+
 func hasSourceName(fn *ssa.Function, name string) bool {
 	for f := fn; f != nil; f = f.Parent() {
 		for _, p := range f.Params {
